@@ -79,6 +79,13 @@ namespace OP2Utility
 		stream.Read(mapHeader);
 		CheckMinVersionTag(mapHeader.versionTag);
 
+		// The width is stored as a base 2 logarithm and the tile count must fit in 32 bits
+		if (mapHeader.lgWidthInTiles >= 32 ||
+			(static_cast<uint64_t>(mapHeader.heightInTiles) << mapHeader.lgWidthInTiles) > UINT32_MAX) {
+			throw std::runtime_error("Map dimensions are too large. Log2 of width: " + std::to_string(mapHeader.lgWidthInTiles) +
+				". Height: " + std::to_string(mapHeader.heightInTiles) + ".");
+		}
+
 		Map map;
 		map.versionTag = mapHeader.versionTag;
 		map.isSavedGame = mapHeader.bSavedGame;
